@@ -29,6 +29,7 @@ struct SolShared
   Eigen::Vector3d v0;
   std::vector<Eigen::Vector3d> landmarks;
   SO3d target;
+  Eigen::VectorXd dynv;  // dynamically sized const arguments of diff::dr (shared)
 };
 void * sol_make()
 {
@@ -42,6 +43,7 @@ void * sol_make()
   s->v0 = Eigen::Vector3d(1, -0.3, 0.5);
   s->landmarks = {Eigen::Vector3d(1, 0, 0), Eigen::Vector3d(0, 1, 0), Eigen::Vector3d(0, 0, 1), Eigen::Vector3d(1, 1, -1)};
   s->target = SO3d::exp(Eigen::Vector3d(0.4, -0.3, 0.2));
+  s->dynv   = (Eigen::VectorXd(4) << 0.5, -1.5, 2, 0.25).finished();
   return s;
 }
 void sol_op(const void * p, int t, std::vector<double> & out)
@@ -56,6 +58,17 @@ void sol_op(const void * p, int t, std::vector<double> & out)
       const auto [v2, J2, H2] = diff::dr<2, diff::Type::Numerical>(f, wrt(s->x0, s->v0));
       put(out, H2);
     }
+  }
+  {
+    // numerical differentiation with respect to shared const arguments of dynamic size (Eigen::VectorXd, std::vector<SO3d>)
+    const auto f = [](const Eigen::VectorXd & y, const std::vector<SO3d> & gs) -> Eigen::Vector3d {
+      Eigen::Vector3d r = y.head<3>() * y(3);
+      for (const auto & g : gs) r += g.log();
+      return r;
+    };
+    const auto [v, J] = diff::dr<1, diff::Type::Numerical>(f, wrt(s->dynv, s->gs));
+    put(out, v);
+    put(out, J);
   }
   {
     // rotation alignment, private optimisation variable and private options
